@@ -56,7 +56,7 @@ Print Assumptions C01_cases.
 (* in run-to-completion mode (a send from a callback only appends to the queue) skipping rejected
    candidates leaves the stored state and the lock unchanged and only appends to the queue ... *)
 Theorem C01_rejected_keep_state :
-  forall beh nested rm, (forall td c, Rres grows c (nested td c)) ->
+  forall beh nested rm, (forall td c, Rres grows c (nested td c)) -> no_writes beh ->
   forall e td cands c c1, Skipped beh nested rm e td cands c c1 ->
     field c1 = field c /\ locked c1 = locked c /\ exists q, queue c1 = queue c ++ q.
 Proof. exact skipped_grows. Qed.
@@ -66,7 +66,7 @@ Print Assumptions C01_rejected_keep_state.
    that fired) or is unchanged; TransitionNotAllowed carries the event and the state and leaves the
    stored state unchanged unless a nested failure is being reported *)
 Theorem C01_state_after_event :
-  forall beh nested rm, (forall td c, Rres grows c (nested td c)) ->
+  forall beh nested rm, (forall td c, Rres grows c (nested td c)) -> no_writes beh ->
   forall cands e s td c,
     match try_candidates beh nested rm cands e s td c with
     | Ok c' _ => field c' = field c \/ exists t, In t cands /\ matches t e = true /\ field c' = Some (rt_tgt t)
@@ -80,7 +80,7 @@ Print Assumptions C01_state_after_event.
 
 (* a fired transition stores exactly its target (RTC) *)
 Theorem C01_fired_stores_target :
-  forall beh nested rm, (forall td c, Rres grows c (nested td c)) ->
+  forall beh nested rm, (forall td c, Rres grows c (nested td c)) -> no_writes beh ->
   forall t td c, act_effect t c (activate beh nested rm t td c).
 Proof. exact activate_effect. Qed.
 Print Assumptions C01_fired_stores_target.
